@@ -208,7 +208,12 @@ fn run_schedule(kind: StoreKind, cap: usize, clean: bool, progs: &[Vec<Rq>], sch
 
 /// a failing schedule with abandon actions is re-run without them: is the abandonment what breaks it?
 fn run_schedule_x(kind: StoreKind, cap: usize, clean: bool, progs: &[Vec<Rq>], schedule: &[usize]) -> Outcome {
+    {
+        let p: Vec<String> = progs.iter().map(|c| format!("[{}]", c.iter().map(|r| r.json()).collect::<Vec<_>>().join(","))).collect();
+        tcv_srv::watchdog::enter(format!("{{\"store\":\"{:?}\",\"cap\":{cap},\"clean\":{clean},\"progs\":[{}],\"schedule\":{:?}}}", kind, p.join(","), schedule));
+    }
     let mut o = run_schedule(kind, cap, clean, progs, schedule);
+    tcv_srv::watchdog::leave();
     let k = progs.len();
     if !o.ok && schedule.iter().any(|&a| a > k) {
         let s2: Vec<usize> = schedule.iter().cloned().filter(|&a| a <= k).collect();
@@ -249,6 +254,7 @@ fn emit(kind: StoreKind, cap: usize, clean: bool, progs: &[Vec<Rq>], schedule: &
 }
 
 fn main() {
+    tcv_srv::watchdog::start(arg_u64("--call-limit-ms", 8000));
     let seed = arg_u64("--seed", 1);
     let mode = arg_value("--mode").unwrap_or_else(|| "dfs".into());
     let mut rng = Rng::new(seed ^ 0xac70);
